@@ -169,3 +169,12 @@ for _m in (FREELIST_META, BACKENDS_META):
         META[_k] = list(META.get(_k, [])) + list(_m.get(_k, []))
 META["not_decided"] = [x for x in META["not_decided"] if not x.startswith("freelist reuse / memory reclamation: caching_freelist / static_freelist (freelist.hpp) are not under contract")]
 STATIC = list(globals().get("STATIC", [])) + list(FREELIST_STATIC) + [f for f in BACKENDS_STATIC if "current_range" not in str(getattr(f, "name", f))]
+
+
+# ---- moodycamel ConcurrentQueue (vendored concurrentqueue.hpp), implicit-producer path used by lockfree_fifo_backend: per-step
+# ---- contracts on the four index words + lemma: fifth sub-agent (after seeded change C17-4 was missed) --------------------------
+exec(open("/verif/specs/C17/mcq_spec.py").read())
+UNITS += MCQ_UNITS
+for _k in ("trusted_base", "assumptions", "not_decided"):
+    META[_k] = list(META.get(_k, [])) + list(MCQ_META.get(_k, []))
+STATIC = list(globals().get("STATIC", [])) + list(MCQ_STATIC)
